@@ -216,6 +216,14 @@ pub fn resperr_family(id0: usize, rng: &mut Rng, out: &mut Vec<String>) {
             a.fin = Finish::Drop;
         }
     }
+    // response heads larger than the 1 KiB write buffer: the write that fails is then a write of the head
+    if rng.chance(1, 3) {
+        for a in base.script.iter_mut() {
+            if let Finish::Respond(ref mut r) = a.fin {
+                r.hdrs.push((b"X-Long".to_vec(), vec![b'h'; *rng.pick(&[1100usize, 3000])]));
+            }
+        }
+    }
     let kind = *rng.pick(&[K::BrokenPipe, K::ConnectionReset, K::ConnectionAborted, K::ConnectionRefused]);
     let after = *rng.pick(&[0usize, 1, 10, 17, 100, 200, 1000, 1024, 1500]);
     let mut c = ctl(base);
@@ -403,6 +411,13 @@ pub fn ahead_family(id0: usize, rng: &mut Rng, out: &mut Vec<String>) {
         if rng.chance(1, 4) {
             r.ver = (1, 0);
             r.hdrs.push((verif_harness::recase(rng, "Connection"), (*rng.pick(&["keep-alive", "Keep-Alive"])).into()));
+        } else if rng.chance(1, 4) {
+            // Connection options that neither close nor upgrade leave an HTTP/1.1 connection open
+            r.hdrs.push((verif_harness::recase(rng, "Connection"), (*rng.pick(&["TE", "foo", "TE, X-Hop"])).into()));
+        }
+        // heads that are large together, small each
+        if rng.chance(1, 5) {
+            r.hdrs.push(("Cookie".into(), "c".repeat(1500)));
         }
         reqs.push(r);
         script.push(a);
